@@ -11,7 +11,9 @@ pub mod c09;
 pub mod search_common;
 pub mod c10;
 pub mod c11;
+pub mod c12;
 pub mod c13;
+pub mod c17;
 pub mod c18;
 
 pub fn run(id: &str, tier: Tier) -> i32 {
@@ -25,7 +27,9 @@ pub fn run(id: &str, tier: Tier) -> i32 {
         "C09" => c09::run(tier),
         "C10" => c10::run(tier),
         "C11" => c11::run(tier),
+        "C12" => c12::run(tier),
         "C13" => c13::run(tier),
+        "C17" => c17::run(tier),
         "C18" => c18::run(tier),
         _ => {
             println!("MACHINERY-ERROR unknown property {}", id);
@@ -45,7 +49,9 @@ pub fn replay(id: &str, case: &Value) -> i32 {
         "C09" => c09::replay(case),
         "C10" => c10::replay(case),
         "C11" => c11::replay(case),
+        "C12" => c12::replay(case),
         "C13" => c13::replay(case),
+        "C17" => c17::replay(case),
         "C18" => c18::replay(case),
         _ => {
             println!("MACHINERY-ERROR unknown property {}", id);
@@ -57,6 +63,7 @@ pub fn replay(id: &str, case: &Value) -> i32 {
 pub fn worker(id: &str) -> i32 {
     let args: Vec<String> = std::env::args().skip(3).collect();
     match id {
+        "C12" => c12::worker(&args),
         "C13" => c13::worker(&args),
         _ => {
             println!("MACHINERY-ERROR no worker for {}", id);
